@@ -18,7 +18,7 @@ func init() { register("C15", checkC15) }
 func checkC15(c *Ctx, e *Env) {
 	c.Explanation = "x/data IRI codec, from SSA: NARROW every integer-narrowing conversion of a message field in the ToIRI encoders is dominated by a successful Validate() that (transitively) proves an upper bound fitting the target type; " +
 		"CODEC for each content-hash kind the byte layout written by ToIRI (constant-index stores + copy of Hash into a make([]byte, len(Hash)+n) buffer) and the cursor positions read by the matching ParseIRI arm are the same field sequence, under the same type-prefix constant, the same base58check version constant (rejected on mismatch by the parser), with the extension written after '.' and read back into the same field (raw) or compared with the same literal (graph); the '.' separator cannot occur in a validated extension; " +
-		"WHERE the IRI stored in DataID always originates from ToIRI()."
+		"WHERE the IRI stored in DataID always originates from ToIRI(); LOOKUP (E1 over all x/data messages and queries) a DataID row found by its collision-prone compact id is never used without a test of its Iri against the IRI in question."
 	c.NotDecided = []string{"base58check being a bijection (dependency)", "full round-trip equality for all inputs is a value property; the structural necessary conditions above are what is decided"}
 	c.Assumptions = []string{"A6", "base58.CheckEncode/CheckDecode are mutually inverse"}
 	m := e.Model("x/data")
@@ -134,6 +134,79 @@ func checkC15(c *Ctx, e *Env) {
 	} else {
 		ruleIriProvenance(c, m, writer, "C15.WHERE")
 	}
+	ruleCompactIDLookups(c, m)
+}
+
+// ruleCompactIDLookups (C15.LOOKUP): the compact id is a short hash of the IRI and can collide, so a
+// DataID row fetched by its primary key says nothing about WHICH IRI it belongs to. On every
+// successful path of every x/data entry point (messages and queries, helpers inlined) on which such
+// a lookup found a row, the path must also have compared that row's Iri with the IRI in question
+// (equal: the row is the right one; unequal: the row is rejected, as in the probe loop). A lookup
+// through the unique IRI index needs no such test.
+func ruleCompactIDLookups(c *Ctx, m *Model) {
+	p := m.P
+	x := NewExplorer(m)
+	nLook := 0
+	for _, ep := range m.Entries {
+		if !ep.Implemented || ep.Fn == nil || (ep.Kind != "msg" && ep.Kind != "query") {
+			continue
+		}
+		outs := x.Explore(ep.Fn, entryParams(ep.Fn))
+		if x.cut {
+			c.Undecide("C15.LOOKUP", ep.Key(), p.Pos(ep.Fn.Pos()), "path exploration was cut short")
+			continue
+		}
+		bad := ""
+		n := 0
+		for _, o := range outs {
+			if !(o.Kind == exitLoopback || (o.Kind == exitReturn && o.Commit)) {
+				continue
+			}
+			st := o.St
+			for i := range st.events {
+				ev := &st.events[i]
+				if ev.Kind != "read" || ev.Table == nil || ev.Table.Name != "DataID" || ev.Method != "Get" || st.errs[ev.ErrID] != 1 {
+					continue
+				}
+				row := st.mem[ev.RowObj]
+				if row == nil {
+					continue
+				}
+				// an id taken from a stored row (the Id column of an attestation, anchor or resolver entry)
+				// names exactly one existing data id: no collision question arises
+				if len(ev.Keys) == 1 && storedCol.MatchString(st.canon(ev.Keys[0])) {
+					continue
+				}
+				// a lookup inside the loop whose iteration this outcome is: the row goes back to the loop
+				// header, which decides its fate at the start of the next iteration (the probe loop; its
+				// exit condition is C16.PROBE)
+				if o.Kind == exitLoopback && strings.HasPrefix(ev.Loop, o.Loop) {
+					continue
+				}
+				n++
+				tested := false
+				for fi := ev.Facts; fi < len(st.facts); fi++ {
+					f := st.facts[fi]
+					if (strings.HasPrefix(f, "+StrEq(") || strings.HasPrefix(f, "-StrEq(")) && strings.Contains(f, ".Iri") {
+						tested = true
+					}
+				}
+				if !tested && bad == "" {
+					bad = "a DataID row found by its compact id at " + p.Pos(ev.Pos.Pos()) + " is used without comparing its Iri with the IRI looked up, on path {" + clip(strings.Join(st.facts, " "), 300) + "}"
+				}
+			}
+		}
+		nLook += n
+		if n == 0 {
+			continue
+		}
+		if bad != "" {
+			c.Violate("C15.LOOKUP", ep.Kind+":"+ep.Key(), p.Pos(ep.Fn.Pos()), bad+": two IRIs whose compact ids collide would answer for each other", nil)
+		} else {
+			c.Hold("C15.LOOKUP", ep.Kind+":"+ep.Key(), p.Pos(ep.Fn.Pos()), fmt.Sprintf("%d primary-key lookups of DataID on successful paths, each followed by a test of the row's Iri", n), nil)
+		}
+	}
+	c.Count("compact_id_lookups_checked", nLook)
 }
 
 type encLayout struct {
@@ -693,30 +766,235 @@ func cmpFieldConst(t *Termer, fn *ssa.Function, bo *ssa.BinOp) (field string, cs
 // ruleExtAlphabet: the validated raw extension cannot contain '.', so the single-separator split is unambiguous.
 func ruleExtAlphabet(c *Ctx, m *Model) {
 	p := m.P
-	var fn *ssa.Function
+	var root *ssa.Function
 	for _, f := range m.subjectFns(false) {
 		if f.Name() == "Validate" && f.Signature.Recv() != nil && strings.HasSuffix(f.Signature.Recv().Type().String(), "ContentHash_Raw") {
-			fn = f
+			root = f
 		}
 	}
-	if fn == nil {
+	if root == nil {
 		c.Undecide("C15.CODEC", "extension#alphabet", "-", "ContentHash_Raw.Validate not found")
 		return
 	}
-	// collect rune comparisons against constants in the range loop: c < '0', c > '9' && c < 'a', c > 'z'
-	var consts []int64
-	for _, b := range fn.Blocks {
-		for _, in := range b.Instrs {
-			if bo, ok := in.(*ssa.BinOp); ok && (bo.Op == token.LSS || bo.Op == token.GTR) {
-				if v, isC := constInt(bo.Y); isC {
-					if bt, ok := bo.X.Type().Underlying().(*types.Basic); ok && bt.Kind() == types.Int32 {
-						consts = append(consts, v)
+	// Per-character acceptance, decided by evaluating the loop body at the separator: in every
+	// loop over the characters of the extension (in Validate or a same-package helper the
+	// extension is handed to), is there a path from the start of the body to the next iteration
+	// that is consistent with c == '.'? Comparisons of the character with constants are evaluated
+	// concretely; every other condition may go either way. Such a path means a validated extension
+	// can contain the separator the parser splits at.
+	const sep = int64('.')
+	type loopAt struct {
+		fn  *ssa.Function
+		hdr *ssa.BasicBlock
+		ch  ssa.Value
+	}
+	var loops []loopAt
+	seen := map[*ssa.Function]bool{}
+	var visit func(fn *ssa.Function, extParams map[int]bool, depth int)
+	visit = func(fn *ssa.Function, extParams map[int]bool, depth int) {
+		if seen[fn] || depth > 3 {
+			return
+		}
+		seen[fn] = true
+		t := NewTermer(fn)
+		isExt := func(v ssa.Value) bool {
+			if prm, ok := v.(*ssa.Parameter); ok {
+				for i, q := range fn.Params {
+					if q == prm && extParams[i] {
+						return true
+					}
+				}
+			}
+			return strings.Contains(t.T(v), "FileExtension")
+		}
+		for _, b := range fn.Blocks {
+			for _, in := range b.Instrs {
+				switch x := in.(type) {
+				case *ssa.Range:
+					if !isExt(x.X) {
+						continue
+					}
+					for _, r := range *x.Referrers() {
+						nx, ok := r.(*ssa.Next)
+						if !ok {
+							continue
+						}
+						for _, r2 := range *nx.Referrers() {
+							if ex, ok := r2.(*ssa.Extract); ok && ex.Index == 2 {
+								loops = append(loops, loopAt{fn, nx.Block(), ex})
+							}
+						}
+					}
+				case *ssa.Call:
+					if sc := x.Call.StaticCallee(); sc != nil && fnPkgPath(sc) == fnPkgPath(root) && len(sc.Blocks) > 0 {
+						ep := map[int]bool{}
+						for i, a := range x.Call.Args {
+							if isExt(a) {
+								ep[i] = true
+							}
+						}
+						if len(ep) > 0 {
+							visit(sc, ep, depth+1)
+						}
+					}
+				}
+			}
+		}
+		// index loops: ext[i] compared — a byte-wise loop; the character value is the Index/Lookup of the extension
+		for _, b := range fn.Blocks {
+			for _, in := range b.Instrs {
+				if ix, ok := in.(*ssa.Index); ok && isExt(ix.X) {
+					if h := loopHeaderOf(fn, b); h != nil {
+						loops = append(loops, loopAt{fn, h, ix})
 					}
 				}
 			}
 		}
 	}
-	sort.Slice(consts, func(i, j int) bool { return consts[i] < consts[j] })
-	ok := len(consts) == 4 && consts[0] == '0' && consts[1] == '9' && consts[2] == 'a' && consts[3] == 'z'
-	c.Check(ok, "C15.CODEC", "extension#alphabet", p.Pos(fn.Pos()), fmt.Sprintf("validated extension alphabet bounds %v = ['0','9','a','z'] exclude the separator '.' (0x2e)", consts))
+	visit(root, nil, 0)
+	if len(loops) == 0 {
+		c.Violate("C15.CODEC", "extension#alphabet", p.Pos(root.Pos()), "no loop over the characters of the file extension found in ContentHash_Raw.Validate or the helpers it hands the extension to: nothing keeps the separator '.' out of a validated extension", nil)
+		return
+	}
+	bad := ""
+	for _, lp := range loops {
+		// value of "the character" and its widenings
+		isCh := func(v ssa.Value) bool {
+			for i := 0; i < 4; i++ {
+				if v == lp.ch {
+					return true
+				}
+				if cv, ok := v.(*ssa.Convert); ok {
+					v = cv.X
+					continue
+				}
+				break
+			}
+			return false
+		}
+		evalCond := func(v ssa.Value) (val, known bool) {
+			neg := false
+			for {
+				if u, ok := v.(*ssa.UnOp); ok && u.Op == token.NOT {
+					v, neg = u.X, !neg
+					continue
+				}
+				break
+			}
+			bo, ok := v.(*ssa.BinOp)
+			if !ok {
+				return false, false
+			}
+			var k int64
+			op := bo.Op
+			switch {
+			case isCh(bo.X):
+				n, isC := constInt(bo.Y)
+				if !isC {
+					return false, false
+				}
+				k = n
+			case isCh(bo.Y):
+				n, isC := constInt(bo.X)
+				if !isC {
+					return false, false
+				}
+				k, op = n, flipCmp(bo.Op)
+			default:
+				return false, false
+			}
+			var r bool
+			switch op {
+			case token.LSS:
+				r = sep < k
+			case token.GTR:
+				r = sep > k
+			case token.LEQ:
+				r = sep <= k
+			case token.GEQ:
+				r = sep >= k
+			case token.EQL:
+				r = sep == k
+			case token.NEQ:
+				r = sep != k
+			default:
+				return false, false
+			}
+			return r != neg, true
+		}
+		// DFS from the block that defines the character to the loop header (= next iteration)
+		start := lp.ch.(ssa.Instruction).Block()
+		accept := false
+		on := map[*ssa.BasicBlock]bool{}
+		var walk func(b *ssa.BasicBlock, first bool)
+		walk = func(b *ssa.BasicBlock, first bool) {
+			if accept {
+				return
+			}
+			if b == lp.hdr && !first {
+				accept = true
+				return
+			}
+			if on[b] {
+				return
+			}
+			on[b] = true
+			defer func() { on[b] = false }()
+			last := b.Instrs[len(b.Instrs)-1]
+			switch x := last.(type) {
+			case *ssa.If:
+				if v, known := evalCond(x.Cond); known {
+					if v {
+						walk(b.Succs[0], false)
+					} else {
+						walk(b.Succs[1], false)
+					}
+					return
+				}
+				// the loop's own continuation test (ok of Next) and unrelated conditions: both ways
+				walk(b.Succs[0], false)
+				walk(b.Succs[1], false)
+			case *ssa.Jump:
+				walk(b.Succs[0], false)
+			}
+		}
+		walk(start, start == lp.hdr)
+		if accept && bad == "" {
+			bad = "in " + funcKey(lp.fn) + " a path through the character loop reaches the next iteration with c == '.' (at " + p.Pos(lp.ch.Pos()) + ")"
+		}
+	}
+	if bad != "" {
+		c.Violate("C15.CODEC", "extension#alphabet", p.Pos(root.Pos()), "a validated file extension can contain the separator '.': "+bad+"; ToIRI writes the extension after a '.', and ParseIRI requires exactly one '.', so the chain would reject the IRI it produced", nil)
+	} else {
+		c.Hold("C15.CODEC", "extension#alphabet", p.Pos(root.Pos()), fmt.Sprintf("%d character loop(s) over the file extension: no path accepts the separator '.' (0x2e)", len(loops)), nil)
+	}
+}
+
+// loopHeaderOf: the innermost natural-loop header whose body contains b (nil when b is in no loop).
+func loopHeaderOf(fn *ssa.Function, b *ssa.BasicBlock) *ssa.BasicBlock {
+	var best *ssa.BasicBlock
+	for _, h := range fn.Blocks {
+		for _, pr := range h.Preds {
+			if !h.Dominates(pr) {
+				continue
+			}
+			// body of the loop with back edge pr→h
+			body := map[*ssa.BasicBlock]bool{h: true}
+			var back func(q *ssa.BasicBlock)
+			back = func(q *ssa.BasicBlock) {
+				if body[q] {
+					return
+				}
+				body[q] = true
+				for _, r := range q.Preds {
+					back(r)
+				}
+			}
+			back(pr)
+			if body[b] && (best == nil || best.Dominates(h)) {
+				best = h
+			}
+		}
+	}
+	return best
 }
